@@ -124,7 +124,13 @@ def materialise(root, nodes):
                     cwd = os.open(".", os.O_RDONLY)
                     try:
                         os.chdir(os.path.dirname(p))
-                        s.bind(os.path.basename(p))
+                        base = os.path.basename(p)
+                        if len(os.fsencode(base)) > 100:
+                            # the name alone exceeds the limit: bind under a short name and rename
+                            s.bind(".fsv-sock-tmp")
+                            os.rename(".fsv-sock-tmp", base)
+                        else:
+                            s.bind(base)
                     finally:
                         os.fchdir(cwd)
                         os.close(cwd)
